@@ -55,9 +55,12 @@ def run_checks(mut, ids, keep=False, tests=False, name=None):
     out = tempfile.mkdtemp(prefix="vout-", dir=SCR)
     try:
         if tests:
-            t = subprocess.run(["cargo", "test", "--workspace", "--offline", "-q"], cwd=d, capture_output=True, text=True,
+            t = subprocess.run(["cargo", "test", "--workspace", "--offline", "--no-fail-fast"], cwd=d, capture_output=True, text=True,
                                env=dict(os.environ, CARGO_NET_OFFLINE="true", CARGO_TARGET_DIR=os.path.join(VERIF, ".cache", "target-tests")))
-            res.append({"mutant": name, "id": "tests", "status": "green" if t.returncode == 0 else "RED", "why": (t.stdout + t.stderr)[-300:].replace("\n", " ") if t.returncode else ""})
+            out_ = t.stdout + t.stderr
+            import re as _re
+            fails = _re.findall(r"^test (\S+) \.\.\. FAILED", out_, _re.M) + _re.findall(r"^(error(?:\[E\d+\])?: .*)$", out_, _re.M)[:3]
+            res.append({"mutant": name, "id": "tests", "status": "green" if t.returncode == 0 else "RED", "why": ("; ".join(fails) or out_[-300:].replace("\n", " ")) if t.returncode else ""})
         for i in ids:
             env = dict(os.environ, VERIF_REPO=d, VERIF_OUT=out)
             r = subprocess.run([os.path.join(VERIF, "check"), i], cwd=VERIF, capture_output=True, text=True, env=env)
